@@ -56,6 +56,9 @@ pub fn cap_configs() -> Vec<[usize; 4]> {
 
 /// One case: intrinsic bounds + admissibility.  Returns (key, what) on violation.
 pub fn check_case(r: &RState, limit: usize, label: &str, undecided: &mut u64) -> Option<(String, String)> {
+    check_case_with_cap(r, limit, label, undecided, 4 * limit + 32)
+}
+pub fn check_case_with_cap(r: &RState, limit: usize, label: &str, undecided: &mut u64, pop_cap: usize) -> Option<(String, String)> {
     let real = run_real(r, limit);
     let (state, aborted) = match &real {
         RealFinal::Done(s) => (s, false),
@@ -91,7 +94,7 @@ pub fn check_case(r: &RState, limit: usize, label: &str, undecided: &mut u64) ->
     }
     // result kind (error iff a push would exceed a capacity) and final state
     let mut undec = false;
-    let adm = match admissible_finals(r, limit, 4 * limit + 32, &mut undec) {
+    let adm = match admissible_finals(r, limit, pop_cap, &mut undec) {
         Ok(a) => a,
         Err(e) => return Some((format!("machinery/{label}"), e)),
     };
@@ -256,18 +259,67 @@ pub fn child(tier: &str) {
             viols.push(json!({"key": k, "what": w, "replay": rp}));
         }
     }
-    // deep nesting smoke guard (not a verdict about unbounded depth)
-    let depth = 2000usize;
-    let mut genes: Vec<PushGene> = vec![];
-    for _ in 0..depth {
-        genes.push(PushGene::Instruction(ExecInstruction::dup_block().into()));
+    // deep-nesting family: d nested conditional blocks, d dense up to 300 and around powers of two,
+    // run under the step limits around every phase boundary, compared with the reference exactly
+    let depths = crate::c05::deep_depths(quick).into_iter().filter(|d| *d <= 1026).collect::<Vec<_>>();
+    let deep = mcx::par::par_map_big(depths.len(), 4usize << 30, |k| {
+        let d = depths[k];
+        let mut runs = 0u64;
+        let mut undecided = 0u64;
+        let mut viols: Vec<(String, String, Value)> = vec![];
+        for kind in ["when-true", "unless-false", "ifelse-true", "when-false"] {
+            let mut genes: Vec<PushGene> = vec![];
+            for _ in 0..d {
+                let (b, op): (bool, PushInstruction) = match kind {
+                    "when-true" => (true, ExecInstruction::when().into()),
+                    "unless-false" => (false, ExecInstruction::unless().into()),
+                    "ifelse-true" => (true, ExecInstruction::if_else().into()),
+                    _ => (false, ExecInstruction::when().into()),
+                };
+                genes.push(PushGene::Instruction(PushInstruction::push_bool(b)));
+                genes.push(PushGene::Instruction(op));
+            }
+            genes.push(PushGene::Instruction(PushInstruction::push_int(1)));
+            genes.push(PushGene::Instruction(PushInstruction::PrintString(PrintString::new("x".into()))));
+            let program: Vec<PushProgram> = Vec::<PushProgram>::from(Plushy::new(genes));
+            let label = format!("deep/{kind}/d={d}");
+            for caps in [[usize::MAX; 4], [4, 1, 1, 1], [3, 1, 1, 1]] {
+                if program.len() > caps[EXEC] {
+                    continue;
+                }
+                let mut r = RState::empty(caps);
+                r.exec = program.iter().rev().cloned().collect();
+                let total = 3 * d + 2;
+                let mut limits = vec![0usize, 1, 2, 3, 4, total.saturating_sub(3), total - 2, total - 1, total, total + 1, 1_000_000];
+                limits.dedup();
+                for limit in limits {
+                    runs += 1;
+                    let mut u = 0u64;
+                    if let Some((k, w)) = check_case_with_cap(&r, limit, &label, &mut u, total + 8) {
+                        if viols.len() < 2 {
+                            let w: String = w.chars().take(600).collect();
+                            viols.push((if k.starts_with("interp/") { format!("interp/{label}") } else { k }, w, json!({"check":"C03","kind":"deep","deep_kind":kind,"depth":d,"caps":caps.iter().map(|c| c.to_string()).collect::<Vec<_>>(),"limit":limit})));
+                        }
+                    }
+                    undecided += u;
+                }
+            }
+        }
+        (runs, undecided, viols)
+    });
+    let mut deep_runs = 0u64;
+    let mut deep_undecided = 0u64;
+    for (r, u, v) in deep {
+        deep_runs += r;
+        deep_undecided += u;
+        for (k, w, rp) in v {
+            viols.push(json!({"key": k, "what": w, "replay": rp}));
+        }
     }
-    genes.push(PushGene::Instruction(PushInstruction::push_int(1)));
-    let program: Vec<PushProgram> = Vec::<PushProgram>::from(Plushy::new(genes));
-    let mut r = RState::empty([4096; 4]);
-    r.exec = program.iter().rev().cloned().collect();
-    let deep_ok = matches!(run_real(&r, 10_000), RealFinal::Done(_) | RealFinal::Aborted(..));
-    tot["deep_nesting_smoke_ok"] = json!(deep_ok);
+    tot["deep_runs"] = json!(deep_runs);
+    tot["deep_undecided"] = json!(deep_undecided);
+    tot["deep_depths"] = json!(depths.len());
+    tot["deep_max_depth"] = json!(depths.iter().max().copied().unwrap_or(0));
     tot["violations"] = Value::Array(viols);
     println!("RESULT {}", tot);
 }
@@ -326,7 +378,7 @@ pub fn run(run: &mut Run) {
     run.rule = "all genomes up to the length bound over the growth alphabet (block duplication, exec dup/swap/flush, conditionals, squaring/power chains, output), every capacity 0..4 globally and per stack, every step limit; each run on the real run_to_completion in a child process; non-trivial = runs whose admissible result is an abort or a truncation by the limit".into();
     run.assumptions = vec![
         "PushRef + tolerance sets decide which result kinds are admissible".into(),
-        "unbounded nesting depth is a resource limit outside any enumerable bound (DESIGN C03); a depth-2000 run is a smoke guard only".into(),
+        "nesting depth: every depth 8..=300 and the neighbourhoods of 512 and 1024 (thorough: 4096) are run exactly; beyond that the recursion of the subject's parser/Clone/Drop is a resource limit outside any enumerable bound (DESIGN C03)".into(),
     ];
     if hung {
         let shards = shard_prefixes(growth_alphabet().len());
@@ -356,9 +408,15 @@ pub fn run(run: &mut Run) {
     run.note("runs_undecided_by_pop_cap", res["undecided"].clone());
     run.note("programs_aborting_at_max_limit", res["aborted"].clone());
     run.note("programs_truncated_at_max_limit", res["truncated"].clone());
-    run.note("deep_nesting_smoke_ok", res["deep_nesting_smoke_ok"].clone());
-    if res["deep_nesting_smoke_ok"] != json!(true) {
-        run.violation("deep-nesting-2000", "a 2000-deep nested program did not evaluate", json!({"check":"C03","kind":"deep"}));
+    run.note("deep.runs", res["deep_runs"].clone());
+    run.note("deep.undecided", res["deep_undecided"].clone());
+    run.note("deep.depths", res["deep_depths"].clone());
+    run.bound("deep.max_nesting_depth", res["deep_max_depth"].clone());
+    run.evaluations += res["deep_runs"].as_u64().unwrap_or(0);
+    run.transitions = run.evaluations;
+    run.traces_validated = run.evaluations;
+    if res["deep_undecided"].as_u64().unwrap_or(0) > 0 {
+        run.machinery("deep-nesting family: the reference did not finish within its step cap");
     }
     if res["aborted"].as_u64().unwrap_or(0) == 0 || res["truncated"].as_u64().unwrap_or(0) == 0 {
         run.machinery("vacuity: no aborting or no truncated program in the sweep");
@@ -379,6 +437,42 @@ pub fn run(run: &mut Run) {
 pub fn replay(v: &Value) -> bool {
     match v["kind"].as_str() {
         Some("run") => crate::interp::replay_run(Mode::C01, v),
+        Some("deep") => {
+            let d = v["depth"].as_u64().unwrap_or(0) as usize;
+            let kind = v["deep_kind"].as_str().unwrap_or("when-true").to_string();
+            let caps: Vec<usize> = v["caps"].as_array().map(|a| a.iter().filter_map(|x| x.as_str().and_then(|s| s.parse().ok())).collect()).unwrap_or_default();
+            let limit = v["limit"].as_u64().unwrap_or(0) as usize;
+            let h = std::thread::Builder::new().stack_size(4usize << 30).spawn(move || {
+                let mut genes: Vec<PushGene> = vec![];
+                for _ in 0..d {
+                    let (b, op): (bool, PushInstruction) = match kind.as_str() {
+                        "when-true" => (true, ExecInstruction::when().into()),
+                        "unless-false" => (false, ExecInstruction::unless().into()),
+                        "ifelse-true" => (true, ExecInstruction::if_else().into()),
+                        _ => (false, ExecInstruction::when().into()),
+                    };
+                    genes.push(PushGene::Instruction(PushInstruction::push_bool(b)));
+                    genes.push(PushGene::Instruction(op));
+                }
+                genes.push(PushGene::Instruction(PushInstruction::push_int(1)));
+                genes.push(PushGene::Instruction(PushInstruction::PrintString(PrintString::new("x".into()))));
+                let program: Vec<PushProgram> = Vec::<PushProgram>::from(Plushy::new(genes));
+                let mut r = RState::empty([caps[0], caps[1], caps[2], caps[3]]);
+                r.exec = program.iter().rev().cloned().collect();
+                let mut u = 0;
+                match check_case_with_cap(&r, limit, &format!("deep/{kind}/d={d}"), &mut u, 3 * d + 10) {
+                    Some((k, w)) => {
+                        println!("MISMATCH [{k}]: {}", w.chars().take(1500).collect::<String>());
+                        false
+                    }
+                    None => {
+                        println!("replay: property held");
+                        true
+                    }
+                }
+            });
+            h.ok().and_then(|h| h.join().ok()).unwrap_or(false)
+        }
         Some("shard") => {
             let k = v["shard"].as_u64().unwrap_or(0) as usize;
             let quick = v["tier"].as_str() != Some("thorough");
